@@ -229,6 +229,14 @@ func TestC31(t *testing.T) {
 					rec.Class("mode:after-prefix")
 					rec.Class(vtag)
 					rec.Class(fmt.Sprintf("prefix-len:%02d-%02d", pos/5*5, pos/5*5+4))
+					if lab := fmt.Sprintf("after-prefix-%s-%s", eng, vtag); pos > 2 && rec.WantSample(lab) {
+						var pre []string
+						for _, j := range s[:pos] {
+							pre = append(pre, items[j].Name)
+						}
+						rec.Sample(lab, map[string]any{"item": items[i].Name, "engine": eng.String(), "validation": validation, "prefix": pre,
+							"gauge_calls": gaugeCalls(ref[i]), "first_step": outs[k][pos][0]})
+					}
 					var its []execgen.Item
 					for _, j := range s[:pos+1] {
 						its = append(its, items[j])
